@@ -146,6 +146,7 @@ def _c06():
     hs += disp_harnesses(["access", "apply"], tags="pair list expression partial external number symbol concatenation".split())
     hs += disp_harnesses(["access", "apply"], tier="thorough", tags="unit type char char_list byte byte_list symbol_list range slice true false custom".split())
     hs += disp_harnesses(["apply_type"] + DISP_UN, tier="thorough")
+    hs += STORE_FRAMES
     return {
         "claim": "Arity lemma: one step of every instruction from an arbitrary valid state that returns Ok changes the register, value-stack and frame depths by exactly the instruction's fixed arity, leaves the registers below its operands untouched, and hands back any registers it borrowed as a worklist.",
         "functions": ["runtime/src/execute.rs execute_current_instruction", "runtime/src/runtime/*.rs (every instruction)", "traits/src/helpers/concatenation.rs iterate_concatenation_mut_with_method"],
@@ -203,8 +204,28 @@ def _c16():
         "functions": ["runtime/src/runtime/list.rs access_with_integer, access_with_symbol, index_list, index_concatenation_for, get_value_if_association", "runtime/src/runtime/access.rs, apply.rs, internals.rs", "traits/src/helpers/concatenation.rs iterate_concatenation_mut, iterate_rev_concatenation_mut"],
         "bounds": "lists of 0..3 items, symbols full u64 (distinct), index full i32; contract model of the data trait",
         "outside": "the two shipped stores' own list construction and lookup (SimpleGarnishData: address-modulo placement; BasicGarnishData: sorted associations + binary search) - on symbolic keys these did not finish (DESIGN.md probe 35); float indexes; lists longer than 3",
-        "assumptions": ["the data object honours the contract: get_list_item answers Ok(None) outside the list, get_list_item_with_symbol finds the keyed pair"],
-        "harnesses": hs,
+        "assumptions": ["(R) harnesses: the data object honours the contract: get_list_item answers Ok(None) outside the list, get_list_item_with_symbol finds the keyed pair; (D) harnesses store_*: none - they run the two real stores (BasicGarnishData with concrete keys 10/20/30 in all 6 insertion orders, SimpleGarnishData with symbolic keys)"],
+        "harnesses": hs + STORE_LISTS,
+    }
+
+
+STORE_FRAMES = [H("store_basic_frames", "store", "quick", "REAL BasicGarnishData (small blocks): k0 registers, frame x, k1 registers, frame y, k2 registers (k0,k1,k2 in 0..1, x,y symbolic); pop_frame returns y then x and restores the register depth of each call; includes a nested call with an empty operand stack", cbmc_args=FIELD_SENS),
+                H("store_basic_values", "store", "quick", "REAL BasicGarnishData: value stack push / current / update / pop", cbmc_args=FIELD_SENS)]
+STORE_LISTS = [H("store_basic_list_p%d%s" % (o, u), "store", "quick" if o in (0, 3, 5) else "thorough", "REAL BasicGarnishData: list of three pairs keyed by symbols 10,20,30 inserted in permutation %d%s: length, index access in insertion order, lookup of a SYMBOLIC symbol (sorted associations + binary search)" % (o, " followed by an unkeyed item" if u else ""), cbmc_args=FIELD_SENS) for o in range(6) for u in ("", "_unkeyed")] + \
+              [H("store_simple_list_%d" % k, "store", "quick", "REAL SimpleGarnishData: a first list keyed by k0,k1, then a second list of %d items keyed by k2.. (all symbols symbolic u64): length, index access, lookup of a symbolic symbol in the second list (modulo placement + probing); no stale associations, no error, no panic on the empty list" % k, cbmc_args=FIELD_SENS) for k in range(3)] + \
+              [H("store_simple_list_unkeyed", "store", "quick", "REAL SimpleGarnishData: lookup in a list holding an unkeyed item is 'absent', not an error", cbmc_args=FIELD_SENS),
+               H("store_basic_list_index_kf", "store", "quick", "witness of the recorded finding: BasicGarnishData::get_list_item past the end is an Err", cbmc_args=FIELD_SENS)]
+STORE_READBACK = [H("store_basic_readback", "store", "quick", "REAL BasicGarnishData with data block of initial size 2 (+4 per growth) and 2-cell instruction / jump blocks: interleaved adds to all three tables across several growth steps; every value reads back with the same type and content", cbmc_args=FIELD_SENS)]
+
+
+def _c15():
+    return {
+        "claim": "On the real BasicGarnishData with small blocks, values added through the data interface read back unchanged at the returned addresses after further adds to the data, instruction and jump tables force several heap reallocations; register, value and frame stacks survive pushes in between.",
+        "functions": ["data/src/basic/internal.rs push_to_block, reallocate_heap, get_from_*_ensure_index", "data/src/basic/storage.rs StorageBlock::next_size", "data/src/basic/basic.rs push_to_*_block", "data/src/basic/garnish/garnish_impl.rs getters, push_frame/pop_frame, push/pop_register, value stack"],
+        "bounds": "one concrete interleaving of 11 adds (5 data cells, 3 instructions, 3 jump entries) with symbolic payloads; initial sizes 2/2/2, additive growth 4; a second scenario for the register / value / frame chains",
+        "outside": "other interleavings and growth policies (symbolic block sizes or a symbolically chosen table did not finish: DESIGN.md probes 29, 34); multiplicative growth; SimpleGarnishData's intern table (hash-collision reasoning: not applicable)",
+        "assumptions": ["cfg(kani) hook exporting StorageSettings (no behaviour change)"],
+        "harnesses": STORE_READBACK + STORE_FRAMES,
     }
 
 
@@ -227,6 +248,7 @@ def _c07():
     hs += disp_harnesses(["access", "apply", "apply_type"])
     hs += disp_harnesses(DISP_UN, tier="thorough")
     hs += retier(step_harnesses(), "thorough") + retier(truth_harnesses(), "thorough")
+    hs += [h for h in STORE_LISTS if "_kf" not in h["name"]] + STORE_FRAMES + STORE_READBACK
     return {
         "claim": "No reachable panic, arithmetic overflow, out-of-bounds index, failed unwrap or unreachable!/unimplemented! in one step of any instruction from an arbitrary valid state, nor in any SimpleNumber operation on any operands: only Kani's own checks (and untagged assertions) count for this property.",
         "functions": ["runtime/src/execute.rs", "runtime/src/runtime/*.rs", "data/src/data/number.rs (all GarnishNumber methods, From<SimpleNumber> for usize)", "data/src/runtime.rs SimpleDataFactory conversions", "traits/src/helpers/concatenation.rs"],
@@ -339,6 +361,7 @@ PROPERTIES_STATIC = {
     "C10": _c10(),
     "C11": _c11(),
     "C12": _c12(),
+    "C15": _c15(),
     "C16": _c16(),
     "C17": _c17(),
 }
